@@ -334,8 +334,9 @@ def check_reserved_names(prog, check):
     gens = prog.definitions_of('get_invalid_variable_names')
     if len(gens) != 1:
         raise AnalysisError('get_invalid_variable_names: %d definitions' % len(gens))
-    fn = gens[0]
-    check.saw(fn)
+    check.saw(gens[0])
+    from ..inline import flatten as _fl
+    fn = _fl(prog, gens[0])
     rets = [n for n in ast.walk(fn.node) if isinstance(n, ast.Return) and n.value is not None]
     from ..dataflow import single_assign_subst
     subst = single_assign_subst(fn.node)
@@ -381,8 +382,8 @@ def check_reserved_names(prog, check):
         ds = prog.definitions_of(pname)
         if len(ds) != 1:
             raise AnalysisError('%s: %d definitions' % (pname, len(ds)))
-        pf = ds[0]
-        check.saw(pf)
+        check.saw(ds[0])
+        pf = _fl(prog, ds[0])
         for r in [x for x in ast.walk(pf.node) if isinstance(x, ast.Return) and x.value is not None]:
             v = r.value
             ok = False
@@ -599,7 +600,10 @@ def check_searches(prog, check, rule):
     for ci in prog.subclasses('Market'):
         for fn_raw in ci.methods.values():
             fn = flatten(prog, fn_raw)
-            loops = [x for x in ast.walk(fn.node) if isinstance(x, ast.For) and isinstance(x.target, ast.Name) and OBJECT_ITER(x.iter)]
+            from ..dataflow import single_assign_subst as _sas, resolve_expr as _rx
+            sub_ = _sas(fn.node)
+            loops = [x for x in ast.walk(fn.node) if isinstance(x, ast.For) and isinstance(x.target, ast.Name) and
+                     (OBJECT_ITER(x.iter) or OBJECT_ITER(_rx(x.iter, sub_)))]
             if not loops:
                 continue
             g = None
